@@ -203,6 +203,66 @@ API — on any channels, under any schedule: no reachable state is stuck and eve
 theorem C20_handler_partial : DeadlockFreeForRows orderedRows :=
   deadlockFreeForRows_of_rank _ (by decide +kernel)
 
+/-- the order discipline composes: a request that respects it and ends holding nothing, followed by another
+such request, is again such a request -/
+theorem ordered_append {L : Type} [DecidableEq L] (lt : L → L → Prop) :
+    ∀ (r1 r2 : List (Ev L)) (held : List L), Ordered lt held r1 → Ordered lt [] r2 →
+      Ordered lt held (r1 ++ r2) := by
+  intro r1
+  induction r1 with
+  | nil =>
+    intro r2 held h1 h2
+    simp only [Ordered] at h1
+    subst h1
+    simpa using h2
+  | cons e r ih =>
+    intro r2 held h1 h2
+    cases e with
+    | acq l =>
+      simp only [List.cons_append, Ordered] at h1 ⊢
+      exact ⟨h1.1, ih r2 (l :: held) h1.2 h2⟩
+    | rel l =>
+      simp only [List.cons_append, Ordered] at h1 ⊢
+      exact ih r2 (held.erase l) h1 h2
+
+theorem ordered_flatten {L : Type} [DecidableEq L] (lt : L → L → Prop) :
+    ∀ (rs : List (List (Ev L))), (∀ r ∈ rs, Ordered lt [] r) → Ordered lt [] rs.flatten := by
+  intro rs
+  induction rs with
+  | nil => intro _; simp [Ordered]
+  | cons r rs ih =>
+    intro h
+    simp only [List.flatten_cons]
+    exact ordered_append lt r rs.flatten [] (h r (List.mem_cons_self ..))
+      (ih (fun r' hr' => h r' (List.mem_cons_of_mem _ hr')))
+
+/-- **C20 (partial, sessions).**  Every thread is a SESSION: it issues any finite sequence of protocol requests
+one after the other (a connection handler), each conforming to one of the rank-respecting rows
+(`orderedRows`: every handler arm except AddBlock / RemoveBlock / BlockChunk, every approver / API program except
+`persist_all`, every node-level kind of `subKinds`).  Any number of concurrent sessions, any schedule: no
+reachable state is stuck, every session completes within the total number of lock events. -/
+theorem C20_handler_partial_sessions (sessions : List (List (List (Ev Lock))))
+    (hconf : ∀ sess ∈ sessions, ∀ r ∈ sess, ∃ row ∈ orderedRows, ConformsRow row r) :
+    ∀ n s, Steps n (mkState (sessions.map List.flatten)) s →
+      n ≤ measure (mkState (sessions.map List.flatten)) ∧ (allDone s ∨ ∃ s', Step s s') := by
+  intro n s hs
+  have hrank : ∀ row ∈ orderedRows, ∀ e ∈ row, rankCls e.1 < rankCls e.2 := by decide +kernel
+  have h' := Locks_order_deadlock_free (L := Lock) (fun a b => rankCls a.cls < rankCls b.cls)
+    (fun _ => Nat.lt_irrefl _) (fun _ _ _ => Nat.lt_trans) (sessions.map List.flatten) (by
+      intro r hr
+      obtain ⟨sess, hsess, rfl⟩ := List.mem_map.mp hr
+      apply ordered_flatten
+      intro q hq
+      obtain ⟨row, hrow, hc, he⟩ := hconf sess hsess q hq
+      exact ordered_of_edges _ q [] (fun e hmem => hrank row hrow _ (hc e hmem)) he) n s hs
+  exact ⟨h'.1, h'.2.1⟩
+
+/-- non-vacuity of `C20_handler_partial_sessions`: a session of two channel requests on channels 0 and 1
+followed by a keysend approval, each conforming to its row of `subKinds` (⊆ `orderedRows`) -/
+example : ∀ r ∈ [instPath 0 (path .channel_request), instPath 1 (path .channel_request),
+                 instPath 0 (path .add_keysend)],
+    ∃ row ∈ orderedRows, ConformsRow row r := by decide +kernel
+
 /-- the generated canonical path of every rank-respecting front-end program (instantiated at channel 0)
 conforms to its own row and ends holding nothing: the hypotheses of `C20_handler_partial` are satisfiable by
 each of them (non-vacuity), and `armPaths` is consistent with `arms` -/
@@ -210,6 +270,35 @@ theorem C20_arm_paths_conform :
     arms.length = armPaths.length ∧
     ∀ p ∈ arms.zip armPaths, rankOk p.1.2 = true → ConformsRow p.1.2 (instPath 0 p.2.2) := by
   decide +kernel
+
+/-- generated-table obligation (two extraction paths agree): the rows of the 25 ChannelHandler arms — extracted
+with the closure literal of each `with_channel` call bound to the slot section — only REFINE the node-level rows
+(`channel_request` = union over every Channel method, `channel_base_request`, `setup_channel`), which are validated
+against the lock traces of the real code: no arm row has an edge that the trace-validated rows lack -/
+theorem C20_channel_arm_rows_refine_kind_rows :
+    ((arms.drop 42).take 25).length = 25 ∧
+    ∀ a ∈ (arms.drop 42).take 25, ∀ e ∈ a.2,
+      e ∈ edges .channel_request ∨ e ∈ edges .channel_base_request ∨ e ∈ edges .setup_channel := by
+  decide +kernel
+
+/-- generated-table obligation: no front-end program has a held-while-acquiring edge that is unknown at the node
+level — every edge of every arm / API program is an edge of some node-level kind (whose rows are validated against
+the traces) -/
+theorem C20_arm_edges_known_at_node_level :
+    ∀ a ∈ arms, ∀ e ∈ a.2, ∃ k ∈ Kind.all, e ∈ edges k := by
+  decide +kernel
+
+/-- … and position 42–66 of `arms` are exactly the ChannelHandler arms -/
+theorem C20_channel_arms_positions :
+    ((arms.drop 42).take 25).map (·.1) =
+      ["Channel.Memleak", "Channel.CheckFutureSecret", "Channel.Ecdh", "Channel.GetPerCommitmentPoint",
+       "Channel.GetPerCommitmentPoint2", "Channel.SetupChannel", "Channel.CheckOutpoint", "Channel.LockOutpoint",
+       "Channel.SignRemoteHtlcTx", "Channel.SignLocalHtlcTx2", "Channel.SignRemoteCommitmentTx",
+       "Channel.SignRemoteCommitmentTx2", "Channel.SignDelayedPaymentToUs", "Channel.SignRemoteHtlcToUs",
+       "Channel.SignLocalHtlcTx", "Channel.SignMutualCloseTx", "Channel.SignMutualCloseTx2",
+       "Channel.ValidateCommitmentTx", "Channel.ValidateCommitmentTx2", "Channel.RevokeCommitmentTx",
+       "Channel.SignLocalCommitmentTx2", "Channel.ValidateRevocation", "Channel.SignPenaltyToUs",
+       "Channel.SignChannelAnnouncement", "Channel.Unknown"] := by rfl
 
 /-- non-vacuity: at least 40 front-end programs take locks, at least 25 of them nest two of them -/
 example : (armPaths.filter (fun p => p.2.length ≥ 2)).length ≥ 40 ∧
@@ -563,15 +652,19 @@ theorem C20_velocity_time_under_lock :
 
 `Gen.LockTable.progs`: the canonical event path of every node-level kind and every front-end program, each
 critical section flagged "writes the protected data" from the source (`let mut` guard / `&mut` borrow /
-mutating temporary / closure calling a `&mut self` Channel method).  `wproj` is the write projection: the
-sections that do not write are erased (a reader only restricts the interleavings: it never changes the data
-or a later writer's input cell), a writing section `acq c … rel c` becomes `acq c, upd c, … rel c`. -/
+mutating temporary / closure calling a `&mut self` Channel method).  `wproj` is the write projection: a writing
+section `acq c … rel c` becomes `acq c, upd c, … rel c`; a section that does not write is ERASED (a reader only
+restricts the interleavings and never changes the data) — UNLESS the same program later opens a writing section of
+the same class: a read of `c` followed by a write of `c` in another section is the check-then-act shape (stale
+check), so that read section is KEPT and the program is then not strict two-phase. -/
 
 /-- write projection of a generated program (`er` = classes of the currently open erased sections) -/
 def wproj : List Cls → List (Bool × Bool × Cls) → List (DEv Cls Unit)
   | _, [] => []
   | er, (true, w, c) :: r =>
-    if w then .acq c :: .upd c id :: wproj er r else wproj (c :: er) r
+    if w then .acq c :: .upd c id :: wproj er r
+    else if r.any (fun e => e.1 && e.2.1 && e.2.2 == c) then .acq c :: wproj er r
+    else wproj (c :: er) r
   | er, (false, _, c) :: r =>
     if er.contains c then wproj (er.erase c) r else .rel c :: wproj er r
 
@@ -585,15 +678,19 @@ covered by `C20_programs_serializable` and is validated against all sequential o
 `forget_channel` (monitor, then ledger, inside the map section; then the tracker), `get_heartbeat` (node_state,
 then tracker), the block kinds/arms (one monitor after the other), the approval arms (`has_payment`, then
 `add_invoice`/`add_keysend`), the withdrawal arms (`check_onchain_tx`, then `unchecked_sign_onchain_tx`) and
-`Root.SignCommitmentTx` (two branches of one `if`, listed sequentially by the scan).  Every other program with
+`Root.SignCommitmentTx` (two branches of one `if`, listed sequentially by the scan), and three read-then-write
+programs whose later write section re-validates under the lock: `check_onchain_tx` (fee velocity) and the
+`ValidateCommitmentTx(2)` arms (the validation reads the ledger, the pre-v5 revocation re-validates and applies
+in ONE later section: `C20_ledger_sections_strict2pl`).  Every other program with
 a writing section — every ChannelHandler arm, new_channel, setup_channel, the allowlist and invoice kinds … —
 is a single strict two-phase write transaction. -/
 theorem C20_programs_not_two_phase :
     (progs.filter (fun p => !(strict2pl (wproj [] p.2)))).map (·.1) =
-      ["kind:forget_channel", "kind:get_heartbeat", "kind:add_block", "kind:remove_block",
-       "Root.PreapproveInvoice", "Root.PreapproveKeysend", "Root.ForgetChannel", "Root.SignWithdrawal",
-       "Root.SignHtlcTxMingle", "Root.SignCommitmentTx", "Root.AddBlock", "Root.RemoveBlock",
-       "Root.GetHeartbeat", "Root.SignAnchorspend", "Handler.fn.sign_withdrawal"] := by
+      ["kind:forget_channel", "kind:check_onchain_tx", "kind:get_heartbeat", "kind:add_block",
+       "kind:remove_block", "Root.PreapproveInvoice", "Root.PreapproveKeysend", "Root.ForgetChannel",
+       "Root.SignWithdrawal", "Root.SignHtlcTxMingle", "Root.SignCommitmentTx", "Root.AddBlock",
+       "Root.RemoveBlock", "Root.GetHeartbeat", "Root.SignAnchorspend", "Channel.ValidateCommitmentTx",
+       "Channel.ValidateCommitmentTx2", "Handler.fn.sign_withdrawal"] := by
   rfl
 
 /-- the shape of a concrete request: lock classes, update functions forgotten -/
